@@ -34,7 +34,12 @@ def demo_command(demo_text):
 
 def one(spec, tier="quick"):
     pid, k = spec.split("/")
-    src = f"/tmp/seed/{pid}/out2/{k[3:]}" if k.startswith("r2_") else f"/tmp/seed/{pid}/out/{k}"
+    if k.startswith("r2_"):
+        src = f"/tmp/seed/{pid}/out2/{k[3:]}"
+    elif k.startswith("r3_"):
+        src = f"/tmp/seed/{pid}/out3/{k[3:]}"
+    else:
+        src = f"/tmp/seed/{pid}/out/{k}"
     if not os.path.exists(f"{src}/patch.diff"):
         src = f"{ROOT}/seeded/{pid}_{k}"
     base = f"/var/tmp/seedchk/{pid}_{k}"
